@@ -108,8 +108,8 @@ class Task(Awaitable[RT]):
     :note: This class should not be instantiated directly.
            Always use a :py:class:`~.Scope` to create it.
     """
-    __slots__ = 'payload', '_result', '__runner__', '_cancellations', '_done',\
-                '__volatile__', 'parent'
+    __slots__ = 'payload', '_result', '_traceback', '__runner__', '_cancellations',\
+                '_done', '__volatile__', 'parent'
 
     def __init__(
             self,
@@ -154,6 +154,7 @@ class Task(Awaitable[RT]):
             except BaseException as err:
                 clear_frames(err.__traceback__)
                 self._result = None, err
+                self._traceback = err.__traceback__
                 self.parent.__child_finished__(self, failed=True)
             else:
                 self._result = result, None
@@ -166,6 +167,7 @@ class Task(Awaitable[RT]):
         self._cancellations = []  # type: List[CancelTask]
         self._result = None  \
             # type: Optional[Tuple[Optional[RT], Optional[BaseException]]]
+        self._traceback = None
         self.payload = payload
         self.parent = parent
         self._done = Done(self)
@@ -175,7 +177,9 @@ class Task(Awaitable[RT]):
         yield from self._done.__await__()
         result, error = self._result
         if error is not None:
-            raise error
+            # every awaiter gets the failure as it ended the task - not extended by
+            # the frames of other activities that awaited (and handled) it before
+            raise error.with_traceback(self._traceback)
         else:
             return result  # noqa: B901
 
